@@ -35,6 +35,8 @@ class Contract:
         self.allocates = d.get("allocates", True)
         self.ghost_pre = d.get("ghost_pre", {})        # name -> expr, evaluated in the pre-state, usable in ensures
         self.param_assume = d.get("assume_params", True)
+        self.ghost_code = list(d.get("ghost_code", []))     # [(statement prefix, [(ghost name, index text | None, value text)])]
+        self.reveals = list(d.get("reveals", []))           # opaque spec functions whose definition this proof may open
         self.uses_lemmas = list(d.get("uses_lemmas", []))   # proved lemmas available as quantified facts inside this function
         self.uses_marks = d.get("uses_marks", False)     # the function works on the splitter's ghost mark model (A-RE axioms apply)
         self.for_callers = d.get("for_callers")          # variant used only when called from these functions (interface view)
@@ -50,9 +52,9 @@ class Contract:
 REC_DEFS = {}
 
 
-def unfold_rec_apps(terms, depth=2):
+def unfold_rec_apps(terms, depth=2, reveals=()):
     """Ground instances of the definitional equations of recursive spec functions occurring in `terms`
-    (closed applications only), unfolded `depth` times."""
+    (closed applications only), unfolded `depth` times.  Opaque functions only when revealed."""
     facts, done = [], set()
     cur = list(terms)
     for _ in range(depth):
@@ -68,7 +70,8 @@ def unfold_rec_apps(terms, depth=2):
                 continue
             if z3.is_app(t):
                 nm = t.decl().name()
-                if nm in REC_DEFS and t.get_id() not in done and not _has_bound_var(t):
+                if nm in REC_DEFS and t.get_id() not in done and not _has_bound_var(t) and (
+                        not getattr(REC_DEFS[nm], "opaque", False) or REC_DEFS[nm].name in reveals):
                     done.add(t.get_id())
                     rs = REC_DEFS[nm]
                     inst = z3.substitute(rs.def_body, *[(p, a) for p, a in zip(rs.def_params, t.children())])
@@ -296,6 +299,7 @@ class ContractMixin:
         the integer `var` downwards to `lower`: the induction hypothesis is the lemma at var - 1."""
         from .symex import Frame
         self.cur_fn = "lemma:" + name
+        self.cur_reveals = tuple(d.get("reveals", ()))
         fr = Frame(None, "<spec>")
         self.cur_frame = fr
         st = State()
@@ -338,6 +342,7 @@ class ContractMixin:
         """Generate all obligations of `fi` against its contract `c`."""
         from .symex import Frame, EngineError, Raised
         self.cur_fn = c.qualname
+        self.cur_reveals = tuple(c.reveals)
         fr = Frame(fi, fi.module, fi.cls)
         fr.contract = c
         self.cur_frame = fr
